@@ -46,6 +46,7 @@ def run(ctx):
     ctx.guard(rule_g, ctx, ix)
     ctx.guard(rule_h, ctx, ix)
     ctx.guard(rule_i, ctx, ix)
+    ctx.guard(rule_j, ctx, ix)
 
 
 def _ev(ix):
@@ -959,3 +960,39 @@ def rule_i(ctx, ix):
                assigns_field or flush or trivial or delegating,
                detail='%s changes the selection without re-assigning a field and without clear_all_caches(): masks memoised before the '
                       'move are served afterwards' % g.construct, where=g.where)
+
+
+def rule_j(ctx, ix):
+    """The edit mode is applied to EVERY subset being edited: the loop of the dispatcher hands each of them to the mode function
+    without looking at the subset first (what `x ^ x` or `x & ~x` is, is for the mode to compute, not for the dispatcher to skip)."""
+    from .. import cond
+    R = 'C01.j'
+    ctx.describe(R, 'the edit-mode dispatcher applies the mode to every edited subset unconditionally', floor=1)
+    c = ix.cls('glue.core.edit_subset_mode.EditSubsetMode')
+    f = c.resolve_func('_combine_data')
+    if f is None:
+        raise AnalysisError('EditSubsetMode._combine_data vanished')
+    pm = parent_map(f.node)
+    # the variable holding the mode: `mode = override_mode or self.mode`
+    calls = []
+    for st in walk_no_nested(f.node):
+        if isinstance(st, ast.Expr) and isinstance(st.value, ast.Call) and isinstance(st.value.func, ast.Name) and len(st.value.args) == 2 \
+                and st.value.func.id not in ('as_list', 'list', 'print'):
+            lp = pm.get(id(st))
+            while lp is not None and not isinstance(lp, (ast.For, ast.While)):
+                lp = pm.get(id(lp))
+            if isinstance(lp, ast.For) and unparse(st.value.args[0]) in [n.id for n in ast.walk(lp.target) if isinstance(n, ast.Name)]:
+                calls.append((st, lp))
+    if not calls:
+        raise AnalysisError('EditSubsetMode._combine_data: applying the mode to each edited subset is no longer recognised')
+    for st, lp in calls:
+        pc = cond.path_condition(f.node, st, expand=False) or ('const', True)      # relative to the loop body
+        ctx.ob(R, f.construct, 'inside the loop over the edited subsets the mode is applied without a test on the subset', pc == ('const', True),
+               detail='EditSubsetMode._combine_data applies the mode only under `%s`: a subset that is skipped keeps its selection although '
+                      'the operation may change it (xor or and-not of a selection with itself is empty) - the result is no longer the '
+                      'Boolean operation applied to the masks of the parts' % (pc,), where=where(f, st))
+        src = unparse(lp.iter)
+        whole = not any(isinstance(x, (ast.GeneratorExp, ast.ListComp)) and any(g.ifs for g in x.generators) for x in ast.walk(lp.iter)) and \
+            'filter(' not in src and not any(isinstance(x, ast.Subscript) and isinstance(x.slice, ast.Slice) for x in ast.walk(lp.iter))
+        ctx.ob(R, f.construct + ' subsets', 'the loop runs over all edited subsets', whole,
+               detail='EditSubsetMode._combine_data iterates `%s`, a filtered part of the edited subsets' % src, where=where(f, lp))
